@@ -550,44 +550,6 @@ def defineClass (O : Oracles) (w : World) (src : ClassSrc) : R ClassDef :=
 def mixinDef (name : String) : ClassDef :=
   { name, isStruct := false, mro := [name] }
 
-/-! ### instances -/
-
-def memberDecls : List (String × Member) → List (String × FieldDecl)
-  | [] => []
-  | (n, .field d _) :: rest => (n, d) :: memberDecls rest
-  | (_, .const _) :: rest => memberDecls rest
-
-def memberDefaults : List (String × Member) → List (String × PyVal)
-  | [] => []
-  | (n, .field _ (some d)) :: rest => (n, d.value) :: memberDefaults rest
-  | _ :: rest => memberDefaults rest
-
-/-- the class as a declaration for `construct` (Sem/Validate.lean) -/
-def ClassDef.toDecl (c : ClassDef) : FieldDecl :=
-  .struct { name := c.name, required := c.sig.req, addl := c.sig.kwargs, ignoreNone := c.ignoreNone,
-            immutable := c.immutable, accepts := [c.name] }
-    (memberDecls c.allFields) (memberDefaults c.allFields)
-
-def addConstants (consts : List (String × PyVal)) : PyVal → PyVal
-  | .inst n attrs => .inst n (consts ++ attrs)
-  | v => v
-
-/-- `cls(**kw)`.  `AbstractStructure.__init__` refuses when the class is AbstractStructure itself
-    or AbstractStructure is among its direct bases; constants cannot be passed. -/
-def instantiate (O : Oracles) (c : ClassDef) (kw : List (String × PyVal)) : R PyVal :=
-  if c.name == "AbstractStructure" || c.bases.contains "AbstractStructure" then .error .typeErr
-  else if kw.any (fun a => (lookup a.1 c.constants).isSome) then
-    (if c.sig.kwargs then .error .valueErr else .error .typeErr)
-  else bindE (construct O c.toDecl kw) fun x => .ok (addConstants c.constants x)
-
-/-- `inst.name = v` on a fresh instance: class-level None handling, then the field's validation -/
-def assignField (O : Oracles) (c : ClassDef) (name : String) (v : PyVal) : R (Option PyVal) :=
-  match lookup name c.allFields with
-  | some (.field d _) =>
-    if v.isNone && c.ignoreNone && !c.required.contains name then .ok none
-    else bindE (validate O d v) fun y => .ok (some y)
-  | _ => .error (.other "not-a-field")
-
 /-! ### Field classes: subclassing an ImmutableField class is refused (FieldMeta.__new__) -/
 
 structure FieldCls where
